@@ -107,6 +107,31 @@ fn holders<T: Encode + Clone>(what: &str, x: &T, want: &[u8], step: usize) -> Ve
     Ok(())
 }
 
+/// Sequences whose *elements* are holders (Box, &, Rc, Arc, Cow) encode like the sequence of
+/// the plain elements (the bulk fast path must not look through the holder).
+fn seq_of_holders<T: HElem>(what: &str, model: &[T], want: &[u8], step: usize) -> Verdict {
+    let boxed: Vec<Box<T>> = model.iter().cloned().map(Box::new).collect();
+    check_enc(&format!("Vec<Box<{what}>>"), &boxed, want, step, "elements boxed")?;
+    let refs: Vec<&T> = model.iter().collect();
+    check_enc(&format!("Vec<&{what}>"), &refs, want, step, "elements borrowed")?;
+    let rcs: VecDeque<Rc<T>> = model.iter().cloned().map(Rc::new).collect();
+    check_enc(&format!("VecDeque<Rc<{what}>>"), &rcs, want, step, "elements in Rc")?;
+    let arcs: Vec<Arc<T>> = model.iter().cloned().map(Arc::new).collect();
+    check_enc(&format!("[Arc<{what}>]"), &arcs[..], want, step, "slice of Arc")?;
+    let cows: Vec<Cow<'_, T>> = model.iter().map(Cow::Borrowed).collect();
+    check_enc(&format!("Vec<Cow<{what}>>"), &cows, want, step, "elements in Cow")?;
+    if model.len() >= 3 {
+        // arrays have no length prefix: compare with the array of plain elements
+        let plain: [T; 3] = [model[0].clone(), model[1].clone(), model[2].clone()];
+        let w = plain.encode();
+        let arr: [Box<T>; 3] = [Box::new(model[0].clone()), Box::new(model[1].clone()), Box::new(model[2].clone())];
+        check_enc(&format!("[Box<{what}>; 3]"), &arr, &w, step, "array of boxes")?;
+        let arr2: [&T; 3] = [&model[0], &model[1], &model[2]];
+        check_enc(&format!("[&{what}; 3]"), &arr2, &w, step, "array of references")?;
+    }
+    Ok(())
+}
+
 fn deque_history<T: HElem>(plan: &Plan, st: &mut Stats, tname: &str) -> Verdict {
     let cap0 = plan.param("fix_cap") as usize;
     let mut dq: VecDeque<T> = if cap0 > 0 { VecDeque::with_capacity(cap0) } else { VecDeque::new() };
@@ -215,6 +240,8 @@ fn deque_history<T: HElem>(plan: &Plan, st: &mut Stats, tname: &str) -> Verdict 
             // a fresh deque built from the model encodes the same
             let fresh_dq: VecDeque<T> = model.iter().cloned().collect();
             check_enc(&format!("fresh {what}"), &fresh_dq, &want, i, "rebuild")?;
+            seq_of_holders::<T>(tname, &model, &want, i)?;
+            st.probe("sequences_of_holders_checked");
         }
     }
     let mut t = crate::seams::Trace::new();
@@ -279,6 +306,7 @@ fn vec_history<T: HElem>(plan: &Plan, st: &mut Stats, tname: &str) -> Verdict {
         }
         if i + 1 == plan.ops.len() {
             holders(&what, &v, &want, i)?;
+            seq_of_holders::<T>(tname, &model, &want, i)?;
         }
     }
     let mut t = crate::seams::Trace::new();
@@ -542,10 +570,80 @@ where
             st.probe("bit_subslices_checked");
         }
     }
+    // the vector itself, converted by move (no clone in between): dead bits beyond the length
+    // left behind by pop / truncate must not leak into the encoding
+    {
+        let want = fresh_of(&model);
+        let mut shrunk: BitVec<T, O> = BitVec::repeat(true, len + 13);
+        shrunk.truncate(len);
+        for (i, b) in model.iter().enumerate() {
+            shrunk.set(i, *b);
+        }
+        check_enc(&format!("{name} built by repeat+truncate"), &shrunk, &want, plan.ops.len(), "repeat+truncate")?;
+        let sb: BitBox<T, O> = shrunk.into_boxed_bitslice();
+        check_enc(&format!("{name} repeat+truncate into_boxed_bitslice"), &sb, &want, plan.ops.len(), "into_boxed_bitslice")?;
+        let moved: BitBox<T, O> = bv.into_boxed_bitslice();
+        check_enc(&format!("{name} into_boxed_bitslice (by move)"), &moved, &want, plan.ops.len(), "into_boxed_bitslice")?;
+        let back: BitVec<T, O> = moved.into_bitvec();
+        check_enc(&format!("{name} BitBox::into_bitvec"), &back, &want, plan.ops.len(), "into_bitvec")?;
+        st.probe("bitbox_by_move_checked");
+    }
     let mut t = crate::seams::Trace::new();
     t.events = plan.ops.len() as u64 + max_off as u64;
     st.note(salt(&[name, &plan.ops.iter().map(|o| &o.op[..2]).collect::<String>(), &(len % 64).to_string()]), &t, true);
     Ok(())
+}
+
+/// Second C06 scenario: a value obtained by *decoding* (possibly from bytes with set padding
+/// bits, duplicate or unsorted map entries, ...) must encode like the same logical value built
+/// from scratch.
+pub struct Reencode;
+
+impl Scenario for Reencode {
+    fn name(&self) -> &'static str {
+        "reencode"
+    }
+    fn property(&self) -> &'static str {
+        "C06"
+    }
+    fn level(&self) -> &'static str {
+        "exploration"
+    }
+    fn rule(&self) -> &'static str {
+        "additionally: one subject and one byte string per case (valid, valid+suffix, damaged incl. set padding bits of bit sequences, duplicate / unsorted map and set entries); when the real decoder accepts it, the encoding of the decoded value must equal the encoding of the same logical value rebuilt from its model (decoding is one more construction history)"
+    }
+    fn cases(&self, tier: Tier) -> u64 {
+        tiered(tier, 400_000, 20_000_000)
+    }
+    fn gen(&self, seed: u64, idx: u64, _tier: Tier) -> Plan {
+        let mut rng = Rng::for_case(seed, "reencode", idx);
+        // BinaryHeap is excluded: its iteration order legitimately depends on history and the
+        // property does not list it.
+        let (p, _) = super::stacks::gen_light_bytes(&mut rng, "reencode", &|s| !s.heavy && !s.name.contains("BinaryHeap"), 60);
+        p
+    }
+    fn run(&self, plan: &Plan, st: &mut Stats) -> Verdict {
+        let s = catalogue().get(&plan.subject);
+        let bytes = super::bytesgen::plan_bytes(plan);
+        let mut t = crate::seams::Trace::new();
+        match (s.reencode)(&bytes) {
+            None => {
+                t.events = 1;
+                st.note(salt(&[s.name, "rejected"]), &t, bytes.len() > 1);
+            },
+            Some((a, b)) => {
+                t.events = 2;
+                st.note(salt(&[s.name, "accepted", &plan.param("fix_family").to_string()]), &t, bytes.len() > 1);
+                st.probe("accepted_and_reencoded");
+                if a != b {
+                    let at = a.iter().zip(&b).position(|(x, y)| x != y).unwrap_or(a.len().min(b.len()));
+                    return viol("c06.encoding_depends_on_history", format!("{}: the value decoded from {} encodes to {} but the same logical value built from scratch encodes to {} (first difference at offset {})", s.name, hex_short(&bytes), hex_short(&a), hex_short(&b), at));
+                }
+            },
+        }
+        st.sample(|| json!({"subject": s.name, "bytes": hex_short(&bytes), "mutations": format!("{:?}", plan.muts)}));
+        Ok(())
+    }
 }
 
 const KINDS: [&str; 16] = [
@@ -569,7 +667,7 @@ impl Scenario for History {
         "history simulation without faults: per case one container kind (VecDeque of u8/u32/u128/i16/f64/String/derived enum, Vec, String, BTreeMap+BTreeSet, LinkedList, BitVec over u8/u16/u32/u64 x Lsb0/Msb0) and 1..60 seeded operations (push/pop both ends, insert, remove, rotate, make_contiguous, reserve, shrink_to_fit, truncate, drain, extend, clear, push_back/pop_front cycling, with_capacity starts; split_off/append/retain for maps, sets, lists and bit vectors) mirrored on a naive model; after EVERY operation encode(), encode_to(custom Output), using_encoded and encoded_size must equal those of the same logical content rebuilt in the simplest way, twice in a row; at the end the holders &T, &&T, &mut T, Box, Rc (extra strong refs), Arc (weak ref), Cow::Borrowed/Owned are compared, and for bit sequences every sub-slice offset 0..=70 x 14 lengths as BitSlice, to_bitvec(), from_bitslice and BitBox; non-trivial = every history; distinct = container kind x operation-name sequence x (wrapped / flat)"
     }
     fn cases(&self, tier: Tier) -> u64 {
-        tiered(tier, 600_000, 20_000_000)
+        tiered(tier, 400_000, 20_000_000)
     }
     fn gen(&self, seed: u64, idx: u64, _tier: Tier) -> Plan {
         let mut rng = Rng::for_case(seed, "history", idx);
